@@ -76,6 +76,7 @@ class GenProxy:
 
     def athrow(self, *a):
         self._st["athrow"] += 1
+        self._st.setdefault("thrown", []).append(a)
         return self._g.athrow(*a)
 
     def aclose(self):
@@ -183,10 +184,12 @@ _EQ = {}
 
 def eq_class(o):
     """The block's exception class with value-based equality (all instances equal, like a dataclass
-    exception without fields): identity, not equality, tells the block's exception from a new one."""
+    exception without fields) whose instances are falsy: identity, not equality, tells the block's exception from a
+    new one, and an exception is one whatever its truth value."""
     if o not in _EQ:
         _EQ[o] = type(o + "Eq", (BLOCK[o],), {"__eq__": lambda s, x: type(s) is type(x), "__ne__": lambda s, x: type(s) is not type(x),
-                                                "__hash__": lambda s: 1})
+                                                "__hash__": lambda s: 1,
+                                                "__bool__": lambda s: False})     # ... and falsy (an error that is an empty collection of problems)
     return _EQ[o]
 
 
@@ -242,7 +245,52 @@ def run_case(case, factory_of, subclass=False, eq=False, bare=False):
         entered = "value" if obs["bound"] else "wrong-value"
         drive = (st["anext"] - obs["enter_calls"]) + st["athrow"]
         nres = drive if drive else min(st["aclose"], 1)
-    return {"label": label, "entered": entered, "nresume": nres, "acct_ok": acct.ok() and not acct.minted}
+    # what is thrown into the generator is the block's exception itself (the object, in one of the two calling conventions)
+    thrown_ok = all(any(x is blockexc for x in a) for a in st.get("thrown", []))
+    return {"label": label, "entered": entered, "nresume": nres, "acct_ok": acct.ok() and not acct.minted, "thrown_ok": thrown_ok}
+
+
+def reuse_scenario(deco, nested):
+    """One manager OBJECT used for two with-blocks (one after the other, or the second inside the first).  A
+    generator-based manager is good for one use (contextlib refuses the second): its generator is driven exactly once."""
+    calls, log, out = [], [], []
+
+    @deco
+    async def ctx():
+        calls.append(1)
+        log.append("setup")
+        try:
+            yield len(calls)
+        finally:
+            log.append("teardown")
+
+    async def second(cm):
+        try:
+            async with cm as v2:
+                log.append(("body2", v2))
+            out.append("second:ok")
+        except Exception as e:  # noqa: BLE001
+            out.append("second:refused:" + type(e).__name__)
+
+    async def go():
+        cm = ctx()
+        try:
+            async with cm as v1:
+                log.append(("body1", v1))
+                if nested:
+                    await second(cm)
+            out.append("first:ok")
+        except Exception as e:  # noqa: BLE001
+            out.append("first:" + type(e).__name__)
+        if not nested:
+            await second(cm)
+
+    r = Task(go(), Accounting()).run()
+    return {"outcome": [x.split(":")[0] + ":" + x.split(":")[1] for x in out], "second_body_ran": any(isinstance(x, tuple) and x[0] == "body2" for x in log),
+            "generator_function_calls": len(calls), "setups": log.count("setup"), "teardowns": log.count("teardown"), "raw": repr((r[0], out))}
+
+
+REUSE_EXPECTED = {"outcome": None, "second_body_ran": False, "generator_function_calls": 1, "setups": 1, "teardowns": 1}
 
 
 CFG = """CONSTANTS
@@ -300,6 +348,8 @@ def check(prop, tier, seed, into=None):
                 got_eq = run_case(c, contextlib.asynccontextmanager, eq=True)
                 if prog_label(got_eq, c) != prog_label(got, c):
                     mach.append({"case": {"prog": c["prog"], "o": c["o"] + "(eq)"}, "expected": got, "twin": got_eq})
+            if not got.get("thrown_ok", True) or (c["o"] != "normal" and not got_eq.get("thrown_ok", True)):
+                mach.append({"case": {"prog": c["prog"], "o": c["o"]}, "what": "contextlib throws another object than the block's exception"})
             # contextlib closes the generator once more after 'did not stop': not a resume of the body
             if {x: got[x] for x in ("label", "entered")} != {x: exp[x] for x in ("label", "entered")}:
                 mach.append({"case": {"prog": c["prog"], "o": c["o"]}, "expected": exp, "twin": got})
@@ -330,6 +380,17 @@ def check(prop, tier, seed, into=None):
                     v.violation("C13/contextmanager/generator-not-driven-exactly-once", {"engine": "ctxmgr", "cfg": cfg, "expected": exp, "observed": got})
                 if not got.get("acct_ok", True):
                     v.violation("C13/contextmanager/suspends-without-user-awaitable", {"engine": "ctxmgr", "cfg": cfg})
+                if not got.get("thrown_ok", True):
+                    v.violation("C13/contextmanager/generator-thrown-another-object-than-the-block-exception", {"engine": "ctxmgr", "cfg": cfg, "observed": got})
+    for nested in (False, True):
+        want = dict(REUSE_EXPECTED, outcome=["second:refused", "first:ok"] if nested else ["first:ok", "second:refused"])
+        tw = reuse_scenario(contextlib.asynccontextmanager, nested)
+        if {k: tw[k] for k in want} != want:
+            mach.append({"what": "contextlib lets one manager object be used twice", "nested": nested, "twin": tw})
+        got = reuse_scenario(L.contextmanager, nested)
+        n["impl"] += 1
+        if {k: got[k] for k in want} != want:
+            v.violation("C13/contextmanager/manager-object-used-twice-is-driven-again", {"engine": "scenario", "nested": nested, "expected": want, "observed": got})
     if mach:
         raise MachineryError("CtxMgr spec disagrees with contextlib.asynccontextmanager: " + str(mach[:4]))
     for c in cases[:: max(1, len(cases) // 5)]:
